@@ -220,11 +220,13 @@ def history(op1: int, i1: int, op2: int, i2: int, v: int, a: int, b: int, c: int
     proc = Processor(LOG, doc)
     for step, (op, i) in enumerate(((op1, i1), (op2, i2))):
         n = len(model["l"])
-        if op == 0:          # set existing element
+        if op == 0:          # set existing element (step 2: the slot right behind the original elements, if any)
+            if step == 1 and n > 3:
+                i = 3
             if not (0 <= i < n):
                 continue
-            proc.set_value("l[" + str(i) + "]", v, mustexist=True)
-            model["l"][i] = v
+            proc.set_value("l[" + str(i) + "]", v + 5, mustexist=True)
+            model["l"][i] = v + 5
         elif op == 1:        # create (append / new key)
             if i == 0:
                 proc.set_value("l[" + str(n) + "]", v)
@@ -235,6 +237,11 @@ def history(op1: int, i1: int, op2: int, i2: int, v: int, a: int, b: int, c: int
             elif i == 2:       # below an existing EMPTY hash
                 proc.set_value("e.n" + str(step), v)
                 model["e"]["n" + str(step)] = v
+            elif i == 3 and step == 0:   # far beyond the end: pad slots appear (their values are not specified)
+                proc.set_value("l[" + str(n + 2) + "]", v)
+                if len(doc["l"]) != n + 3 or doc["l"][n + 2] != v or list(doc["l"])[:n] != model["l"]:
+                    return False
+                model["l"] = list(doc["l"])       # adopt the pads as they are; later steps must not touch them
             else:              # into an existing EMPTY list
                 proc.set_value("z[" + str(len(model["z"])) + "]", v)
                 model["z"].append(v)
